@@ -57,11 +57,23 @@ def run(tier, seed):
         "on continuation lines / next to a run-time argument, parameter default, 8 import forms, higher-order reference, lambda, nested def, class/method) x position (kept function, helpers, kept child, "
         "sibling, run-time-argument keep, entry) x history v0 -> edit -> v0 -> edit with process restarts, in-process reload and in-process variable mutation x entry styles; "
         "random DAG programs (3-10 functions, 1-3 modules, 0-4 variables, mixed keeps/data functions/run-time arguments) with 6-10 step histories of edits, reverts, restarts; stores local, local+cache, memory, noop; "
-        "code in an accepted package, in a __main__ script and in IPython cells. distinct_nontrivial = distinct (program skeleton, history shape, store, edit) cases in which a result was served from the store "
+        "a second process evaluating an edited producer between two evaluations of a long-lived process (stores configured through dds.set_store with cache_objects -1 / True / 5); code in an accepted package, in a __main__ script and in IPython cells. distinct_nontrivial = distinct (program skeleton, history shape, store, edit) cases in which a result was served from the store "
         "and an edit changed the reference value."
     )
     cases = build_cases(tier, seed)
     e1run.run_cases(cases, "C01", ["values"], rep, classify_name="checks.c01.classify")
+    # another process evaluates an edited producer between two evaluations of a long-lived process (stores as configured by
+    # dds.set_store with every cache_objects flavour): the long-lived process returns what plain execution returns
+    from checks import c09
+
+    ojobs = [(pl, pr, ed, st, 7000 + i, "C01") for i, (pl, pr, ed, st) in enumerate(
+        [("top", "data", "prod_const", "local_api_cache_all"), ("kept", "keep", "prod_var", "local_api_cache_all"), ("helper", "data", "prod_callee", "local_api_cache_true"),
+         ("kept_helper", "keep", "prod_const", "local_api_cache_5"), ("kept", "data", "prod_const", "local"), ("top", "keep", "prod_var", "dbfs")])]
+    for j, r in zip(ojobs, core.fork_map(c09.other_process_job, ojobs, timeout=900)):
+        if isinstance(r, core.JobFailed):
+            rep.inconclusive.append("other-process job: %r" % (r,))
+        else:
+            rep.merge(r)
     rep.sample({"case": cases[0]["name"], "history": cases[0]["history"], "edit": cases[0]["edit_desc"].get("0->1"),
                 "entry_module_text": gen.render(cases[0]["versions"][0])[cases[0]["versions"][0]["pkg"] + "/top.py"][-600:]})
     rep.sample({"case": cases[-1]["name"], "history": cases[-1]["history"][:4]})
@@ -74,6 +86,11 @@ def replay(payload):
     from vp import e1
 
     rep = core.Report("C01")
+    if "other_process" in payload["case"]:
+        from checks import c09
+
+        rep.merge(c09.other_process_job(tuple(payload["case"]["other_process"])))
+        return rep
     case = payload["case"]["case"]
     obs = e1.run_case(case)
     if obs["failed"]:
